@@ -1179,7 +1179,7 @@ fn main() {
     fixed_pairs(&mut r);
     macro_sites(&mut r);
 
-    let miri = cfg!(miri);
+    let miri = cfg!(miri) || args.get("tiny").is_some();
     let n_seeded = if miri { (40 * args.scale / 100).max(1) } else { args.n(300_000, 12_000_000) };
     par_cases(&mut r, &args, n_seeded, |i, r| seeded_case(r, seed, i));
     let n_unrelated = if miri { (20 * args.scale / 100).max(1) } else { args.n(200_000, 8_000_000) };
